@@ -119,3 +119,55 @@ Proof.
   exists s2. split; [reflexivity|].
   rewrite !app_length. cbn [length]. repeat split; [lia|congruence|congruence].
 Qed.
+
+Lemma tagset_eqb_length : forall a b, tagset_eqb a b = true -> length a = length b.
+Proof.
+  induction a as [|x a IH]; intros [|y b] H; try discriminate; [reflexivity|].
+  cbn in H. apply Bool.andb_true_iff in H. destruct H as [_ H]. cbn. f_equal. apply IH. exact H.
+Qed.
+
+(* the tag map of every type but the untagged CHOICE and ANY has the type's own tag set as only key *)
+Definition plain_map (T: ty) : Prop := tagmap_of T = mkTmap [(tagset_of' T, T)] [] None false.
+
+Lemma plain_map_contains T ts : plain_map T -> tagset_eqb ts (tagset_of' T) = false -> tm_contains (tagmap_of T) ts = false.
+Proof.
+  intros Hp Hne. rewrite Hp. unfold tm_contains, tm_find. cbn [tm_present tm_default assoc].
+  rewrite Hne. reflexivity.
+Qed.
+
+Lemma frame_outer_snoc : forall r t c d si sub,
+  frame_outer (r ++ [t]) c d si sub = (do s' <- frame_outer r c d si sub; frame_one t c d si s').
+Proof.
+  induction r as [|x r IH]; intros t c d si sub; cbn [app frame_outer].
+  - cbn [bind]. destruct (frame_one t c d si sub); reflexivity.
+  - destruct (frame_one x c d si sub) as [s1|e]; cbn [bind]; [apply IH|reflexivity].
+Qed.
+
+Definition explicit_like (t: tag) : Prop := tcon t = true /\ tcls t <> Univ.
+
+(* all the EXPLICIT levels of a definite-length encoding, from the outermost inwards *)
+Lemma peel_all : forall c T f si r acc0 sub b v,
+  frame_outer r false true si sub = Ok b ->
+  Forall explicit_like r ->
+  Forall (fun t => (length (enc_tag t false) <= S f)%nat) r ->
+  plain_map T ->
+  length (tagset_of' T) = S (length r + length acc0) ->
+  consumes (dec_call c f (STy T) (r ++ acc0) None false false) sub v ->
+  consumes (dec_call c (f + length r) (STy T) acc0 None false false) b v.
+Proof.
+  intros c T f si r. induction r as [|tn r' IH] using rev_ind; intros acc0 sub b v Hfr Hex Hlen Hpm Hts Hin.
+  - cbn [frame_outer] in Hfr. inversion Hfr; subst. cbn [length app] in *. rewrite Nat.add_0_r. exact Hin.
+  - rewrite frame_outer_snoc in Hfr.
+    destruct (frame_outer r' false true si sub) as [inner|e] eqn:Ein; cbn [bind] in Hfr; [|discriminate].
+    apply Forall_app in Hex. destruct Hex as [Hex' Hexn]. inversion Hexn as [|? ? [Hcon Hcls] _]; subst.
+    apply Forall_app in Hlen. destruct Hlen as [Hlen' Hlenn]. inversion Hlenn as [|? ? Hl _]; subst.
+    rewrite app_length in *. cbn [length] in *.
+    replace (f + (length r' + 1))%nat with (S (f + length r')) by lia.
+    assert (Hmis: tagset_eqb (tn :: acc0) (tagset_of' T) = false).
+    { destruct (tagset_eqb (tn :: acc0) (tagset_of' T)) eqn:E; [|reflexivity].
+      apply tagset_eqb_length in E. cbn [length] in E. lia. }
+    apply (explicit_level c (f + length r') T acc0 tn si inner b v Hfr Hcon Hcls Hmis (plain_map_contains T _ Hpm Hmis)); [lia|].
+    apply (IH (tn :: acc0) sub inner v Ein Hex' Hlen' Hpm).
+    + cbn [length]. lia.
+    + rewrite <- app_assoc in Hin. exact Hin.
+Qed.
